@@ -53,6 +53,14 @@ var catByName = map[string]*TypeInfo{}
 var goodTypes, badTypes []*TypeInfo
 var byPkg = map[string][]*TypeInfo{}
 var pkgNames []string
+var featureTypes []*TypeInfo
+
+func pickGood(rng *simrt.Rng) *TypeInfo {
+	if len(featureTypes) > 0 && rng.Bool(0.35) {
+		return featureTypes[rng.Intn(len(featureTypes))]
+	}
+	return goodTypes[rng.Intn(len(goodTypes))]
+}
 
 // catalogueHang: the very first use of this type on a fresh codec never returned (native mode only)
 var catalogueHang string
@@ -121,6 +129,13 @@ func buildCatalogue() {
 		pkgNames = append(pkgNames, p)
 	}
 	sort.Strings(pkgNames)
+	// the repository's own test protos exist to cover every J5 feature (flattening, exposed and
+	// wrapped oneofs, anys, keys, wrappers ...): they get extra weight in the type pools
+	for _, ti := range goodTypes {
+		if strings.HasPrefix(ti.Pkg, "test.schema.") || strings.HasPrefix(ti.Pkg, "test.foo.") {
+			featureTypes = append(featureTypes, ti)
+		}
+	}
 }
 
 // ---------------------------------------------------------------- seeded message population
@@ -739,7 +754,7 @@ func genWorkload(seed uint64, deep bool) *Workload {
 	shape := rng.Float64()
 	switch {
 	case shape < 0.30: // everyone hits the same type first
-		pool = []*TypeInfo{goodTypes[rng.Intn(len(goodTypes))]}
+		pool = []*TypeInfo{pickGood(rng)}
 		if rng.Bool(0.25) {
 			pool = []*TypeInfo{catByName["test.schema.v1.FullSchema"]} // any chains, flattening, every oneof flavour
 		}
@@ -752,7 +767,7 @@ func genWorkload(seed uint64, deep bool) *Workload {
 	default: // anything, possibly disjoint
 		n := 2 + rng.Intn(4)
 		for i := 0; i < n; i++ {
-			pool = append(pool, goodTypes[rng.Intn(len(goodTypes))])
+			pool = append(pool, pickGood(rng))
 		}
 	}
 	if len(badTypes) > 0 && rng.Bool(0.10) {
